@@ -154,8 +154,11 @@ pub fn generate(prop: &str, rng: &mut Rng, tier: Tier) -> Scenario {
         // C31: one transaction in eight is refused by the VM at initialisation (it lists a
         // contract that does not exist), so that later transactions run on an instance that has
         // just reported an error
-        if (drop_some && g.chance(1, 6)) || (prop == "C31" && g.chance(1, 8)) {
+        if drop_some && g.chance(1, 6) {
             input_contracts.push(n_dep as u8);
+        }
+        if prop == "C31" && g.chance(1, 8) {
+            input_contracts.push(ABSENT_INPUT);
         }
         let mut outputs = Vec::new();
         for a in 0..NA as u8 {
